@@ -41,3 +41,50 @@ extern "C" void harness_c20_bsearch() {
   ASSERT(r == ref, "C20 unique-name binary search returns the row's offset, -1 when absent");
   WITNESS();
 }
+
+// ---- get_wrapper_by_unique_name: total for names of ANY length (0..KLEN) and content; exact on a one-module database.
+#ifndef KLEN
+#define KLEN 7
+#endif
+#ifndef UMAX
+#define UMAX 2
+#endif
+extern "C" void harness_c20_by_unique_name() {
+  static char names[UMAX][3];
+  static InterrogateUniqueNameDef table[UMAX];
+  static InterrogateModuleDef def;
+  int n = nondet_int();
+  ASSUME(n >= 0 && n <= UMAX);
+  for (int i = 0; i < UMAX; i++) {
+    char a = nondet_char(), b = nondet_char();
+    ASSUME(a >= 'a' && a <= 'c' && b >= 'a' && b <= 'c');
+    names[i][0] = a; names[i][1] = b; names[i][2] = 0;
+    table[i].name = names[i];
+    table[i].index_offset = i;
+  }
+  for (int i = 0; i + 1 < n; i++) ASSUME(lt2(names[i], names[i + 1]));
+  int first = nondet_int();
+  ASSUME(first >= 1 && first <= 1000000);
+  def.library_name = "libx";
+  def.library_hash_name = "LIBX";
+  def.unique_names = table;
+  def.num_unique_names = n;
+  def.first_index = first;
+  def.next_index = first + UMAX;
+  InterrogateDatabase *db = new InterrogateDatabase;
+  db->_modules_by_hash[std::string("LIBX")] = &def;       // what request_module does for a module with unique names
+  // the queried name: any byte string of length 0..KLEN (the C interface passes any NUL-terminated string)
+  int klen = nondet_int();
+  ASSUME(klen >= 0 && klen <= KLEN);
+  char kb[KLEN + 1];
+  for (int i = 0; i < KLEN; i++) { char c = nondet_char(); ASSUME(c != 0); kb[i] = c; }
+  kb[klen] = 0;
+  std::string key(kb);
+  int r = db->get_wrapper_by_unique_name(key);
+  int ref = 0;
+  if (klen == 6 && kb[0] == 'L' && kb[1] == 'I' && kb[2] == 'B' && kb[3] == 'X')
+    for (int i = 0; i < n; i++)
+      if (names[i][0] == kb[4] && names[i][1] == kb[5]) ref = first + i;
+  ASSERT(r == ref, "C20 get_wrapper_by_unique_name returns first_index+offset of the named wrapper, 0 for every other string");
+  WITNESS();
+}
